@@ -19,7 +19,7 @@ import vlib
 from vlib import cz, cnat, cbool, clist
 
 HEADER = ("From Coq Require Import List ZArith Bool QArith.\nImport ListNotations.\n"
-          "From QV Require Import Model.C17_sde.\nClose Scope Q_scope.\nOpen Scope nat_scope.\n")
+          "From QV Require Import Model.C17_sde Model.C17_sys.\nClose Scope Q_scope.\nOpen Scope nat_scope.\n")
 
 
 def cq(fr):
@@ -194,3 +194,193 @@ def correspondence(ctx, rng, dist):
             ctx.violation("sode/_sode.pyx:%s.step" % case["scheme"], bad[0][0], bad[0][1],
                           {"case": describe(case), "impl": str(im), "kind": "sde"})
     ctx.sample({"sde_case": describe(cases[-1]), "impl_final_state": str(canon_impl(impl[-1]))})
+
+
+# ------------------------------------------------ closed system (SSESolver)
+def gen_sse_case(rng):
+    """SSESolver, euler / platen, one step on exact dyadic data (kets need not
+    be normalised).  Bit budget (denominator exponents): the drift term
+    e^2 psi / 8 with e = <c + c^dag> is quintic in psi.
+    Euler: psi 1, c 1 -> e 3, e^2 psi/8 10, times dt (6) 16.
+    Platen evaluates the drift again at V_t: only basis kets, integer
+    operators and dt = 2^-4 keep that below 2^45 (V_t 7, e(V_t) 14,
+    e^2 V_t/8 38, times dt/2 43)."""
+    dim = rng.choice([2, 2, 3])
+    nsc = rng.choice([1, 1, 2])
+    scheme = rng.choice(["euler", "platen"])
+    meas = rng.random() < 0.3
+
+    def gi(lo, hi):
+        return complex(rng.randrange(lo, hi + 1), rng.randrange(lo, hi + 1))
+    h = np.array([[gi(-2, 2) for _ in range(dim)] for _ in range(dim)])
+    H = np.triu(h, 1) + np.triu(h, 1).conj().T + np.diag([float(rng.randrange(-2, 3)) for _ in range(dim)])
+    if scheme == "platen":
+        scs = [np.array([[gi(-1, 1) for _ in range(dim)] for _ in range(dim)]) for _ in range(nsc)]
+        psi = np.zeros((dim, 1), dtype=complex)
+        psi[rng.randrange(dim), 0] = 1
+        k = 2
+    else:
+        scs = [np.array([[gi(-2, 2) / 2 for _ in range(dim)] for _ in range(dim)]) for _ in range(nsc)]
+        psi = np.array([[gi(-2, 2) / 2] for _ in range(dim)])
+        if not np.any(psi):
+            psi[0, 0] = 1
+        k = rng.choice([2, 2, 3])
+    T = 1
+    dt, sdt = Fraction(1, 4 ** k), Fraction(1, 2 ** k)
+    if meas:
+        noise = [[Fraction(rng.randrange(-12, 13), 4) for _ in range(nsc)] for _ in range(T)]
+    else:
+        noise = [[Fraction(rng.randrange(-6, 7), 8) for _ in range(nsc)] for _ in range(T)]
+    return {"dim": dim, "scheme": scheme, "meas": meas, "T": T, "H": H, "scs": scs, "cls": [],
+            "rho": psi, "dt": dt, "sdt": sdt, "noise": noise,
+            "alpha": Fraction(0), "eta": Fraction(1, 2)}
+
+
+def run_sse_impl(case):
+    import qutip
+    from c17 import FakeGen
+    H = qutip.Qobj(case["H"])
+    scs = [qutip.Qobj(c) for c in case["scs"]]
+    dt = float(case["dt"])
+    opts = {"method": case["scheme"], "dt": dt, "progress_bar": "", "store_states": True,
+            "keep_runs_results": True, "store_measurement": "start"}
+    s = qutip.SSESolver(H, scs, heterodyne=False, options=opts)
+    psi0 = qutip.Qobj(case["rho"])
+    tlist = [k * dt for k in range(case["T"] + 1)]
+    with warnings.catch_warnings():
+        warnings.simplefilter("ignore")
+        if case["meas"]:
+            m = np.array([[float(x) for x in row] for row in case["noise"]]).T
+            res = s.run_from_experiment(psi0, tlist, m, measurement=True)
+        else:
+            vals = [float(x) for row in case["noise"] for x in row]
+            res = s.run(psi0, tlist, ntraj=1, seeds=[FakeGen(vals, 1.0)]).trajectories[0]
+    return res.states[-1].full()
+
+
+def coq_sse_expr(case):
+    sch = {"euler": "SEuler", "platen": "SPlaten"}[case["scheme"]]
+    dWs = [[x * case["dt"] if case["meas"] else x for x in row] for row in case["noise"]]
+    return "mprint (sse_run %s %s %s %s %s %s %s %s)" % (
+        sch, cbool(case["meas"]), cmat(case["H"]), clist(case["scs"], cmat),
+        cmat(case["rho"]), cq(case["dt"]), cq(case["sdt"]),
+        clist(dWs, lambda r: clist(r, cq)))
+
+
+# ------------------------------------------------------ Rouchon (SMESolver)
+def gen_rouchon_case(rng):
+    """One Rouchon step of SMESolver on dyadic data.  Everything up to
+    out = M rho M^dag + sum c rho c^dag dt is exact (denominators < 2^40);
+    the final `out / trace(out)` is the data layer's mul(out, 1/trace): two
+    float operations that the harness repeats on the model's exact values."""
+    c = gen_case(rng)
+    c["scheme"] = "rouchon"
+    c["meas"] = False
+    c["T"] = 1
+    c["noise"] = [[Fraction(rng.randrange(-6, 7), 8) for _ in range(len(c["scs"]))]]
+    return c
+
+
+def run_rouchon_impl(case):
+    import qutip
+    H = qutip.Qobj(case["H"])
+    scs = [qutip.Qobj(c) for c in case["scs"]]
+    cls_ = [qutip.Qobj(c) for c in case["cls"]]
+    dt = float(case["dt"])
+    s = qutip.SMESolver(H, scs, c_ops=cls_, heterodyne=False,
+                        options={"method": "rouchon", "dt": dt, "progress_bar": "",
+                                 "store_states": True})
+    with warnings.catch_warnings():
+        warnings.simplefilter("ignore")
+        res = s.run_from_experiment(qutip.Qobj(case["rho"]), [0, dt],
+                                    np.array([[float(x)] for x in case["noise"][0]]))
+    return res.states[-1].full()
+
+
+def coq_rouchon_expr(case):
+    return "rouchon_obs %s %s %s %s %s %s" % (
+        cmat(case["H"]), clist(case["scs"], cmat), clist(case["cls"], cmat),
+        cmat(case["rho"]), cq(case["dt"]), clist(case["noise"][0], cq))
+
+
+def rouchon_model_to_float(v):
+    """(mprint out, cprint trace) -> the floats mul(out, 1/trace) produces."""
+    out, tr = v
+    def cx(z):
+        return complex(Fraction(z[0], z[1]), Fraction(z[2][0], z[2][1]))
+    t = cx(tr)
+    if t == 0:
+        return None
+    inv = 1 / t
+    return np.array([[cx(z) * inv for z in row] for row in out])
+
+
+def correspondence_sys(ctx, rng, dist):
+    n = 40 if ctx.quick else 800
+    d = dist.setdefault("sde_scheme", {})
+    # ---- closed system
+    cases, impl = [], []
+    for _ in range(n):
+        c = gen_sse_case(rng)
+        try:
+            impl.append(run_sse_impl(c))
+            cases.append(c)
+        except Exception as e:
+            ctx.violation("sode/ssystem.pyx:StochasticClosedSystem", "raises:" + type(e).__name__,
+                          "stepping SSESolver raises %r on a valid input" % (e,),
+                          {"case": describe(c), "kind": "sde"})
+    rcases, rimpl = [], []
+    for _ in range(n):
+        c = gen_rouchon_case(rng)
+        try:
+            rimpl.append(run_rouchon_impl(c))
+            rcases.append(c)
+        except Exception as e:
+            ctx.violation("sode/rouchon.py:RouchonSODE._step", "raises:" + type(e).__name__,
+                          "a Rouchon step raises %r on a valid input" % (e,),
+                          {"case": describe(c), "kind": "sde"})
+    exprs = [coq_sse_expr(c) for c in cases] + [coq_rouchon_expr(c) for c in rcases]
+    try:
+        vals = vlib.coq_eval_values("cases_C17_sys", HEADER, exprs, chunk=40)
+    except RuntimeError as e:
+        ctx.violation("corr:C17:sys-model-eval", "coqc", "system model evaluation failed",
+                      {"log": str(e)}, found_input=False)
+        return
+    for case, a, v in zip(cases, impl, vals):
+        model = canon_model(vlib.parse_coq_value(v))
+        im = canon_impl(a)
+        tag = "sse:" + case["scheme"] + ("+meas" if case["meas"] else "")
+        d[tag] = d.get(tag, 0) + 1
+        ctx.count_case(("sse", repr(describe(case))), nontrivial=True)
+        ctx.cov["traces_validated_against_impl"] += 1
+        if model != im:
+            ctx.violation("corr:sode/ssystem.pyx:StochasticClosedSystem:%s" % case["scheme"],
+                          "model-differs",
+                          "closed-system model and SSESolver disagree on an exact step",
+                          {"case": describe(case), "impl": str(im), "model": str(model),
+                           "kind": "sde"}, found_input=True)
+    for case, a, v in zip(rcases, rimpl, vals[len(cases):]):
+        pv = vlib.parse_coq_value(v)
+        want = rouchon_model_to_float(pv)
+        d["sme:rouchon"] = d.get("sme:rouchon", 0) + 1
+        ctx.count_case(("rouchon", repr(describe(case))), nontrivial=True)
+        ctx.cov["traces_validated_against_impl"] += 1
+        bad = []
+        if np.trace(a).imag != 0 or abs(np.trace(a).real - 1) > 1e-14:
+            bad.append("trace of the normalised state is %r" % complex(np.trace(a)))
+        if not np.array_equal(a, a.conj().T):
+            bad.append("state after a Rouchon step is not Hermitian (exact dyadic input)")
+        if want is None or not np.array_equal(want, a):
+            ctx.violation("corr:sode/rouchon.py:RouchonSODE._step",
+                          "model-differs",
+                          "Rouchon model (M_dy rho M_dy^dag + sum c rho c^dag dt, then "
+                          "mul(out, 1/trace)) and implementation disagree on an exact step"
+                          + ("; " + bad[0] if bad else ""),
+                          {"case": describe(case), "impl": str(a.tolist()),
+                           "model": str(None if want is None else want.tolist()), "kind": "sde"},
+                          found_input=True)
+        elif bad:
+            ctx.violation("sode/rouchon.py:RouchonSODE._step", "trace-or-hermiticity", bad[0],
+                          {"case": describe(case), "impl": str(a.tolist()), "kind": "sde"})
+    if cases:
+        ctx.sample({"sse_case": describe(cases[-1]), "impl_final_state": str(canon_impl(impl[-1]))})
